@@ -1,6 +1,6 @@
 --------------------------- MODULE Gen_MpqHashTable ---------------------------
 (***************************************************************************************************)
-(* Stage (B) for C06: TLC runs the IMPLEMENTATION machine of MpqHashTable (CodeSteps/CodeSyncs,    *)
+(* Stage (B) for C06: TLC runs the AS-CODED machine of MpqHashTable (CodeSteps/CodeSyncs,          *)
 (* real table size H = 16, real home slots of the special files) and emits operation histories as  *)
 (* `CASE {json}` lines:                                                                            *)
 (*   mode bfs : every history of MinLen..MaxLen calls over the op names (breadth-first, exhaustive)*)
@@ -25,6 +25,7 @@ GMaxLen == atoi(Env("C06_MAXLEN", "3"))
 GNames  == atoi(Env("C06_NAMES", "3"))          \* number of op names
 GInit   == atoi(Env("C06_INIT", "1"))           \* how many of them are in the starting archive
 GEnc    == atoi(Env("C06_ENC", "0"))            \* 0: no encryption, 1: + encrypt, 2: + fix_key
+GSub    == Env("C06_SUB", "0") = "1"            \* the spelling of name "b" is contained in the spelling of name "a"
 GFill   == Env("C06_FILL", "0") = "1"           \* sim: addition-heavy histories (more additions than free slots)
 GCls    == Env("C06_CLASS", "c")
 
@@ -41,6 +42,7 @@ GHome    == [x \in GUNames \cup {LF, AT} |->
                ELSE IF x = AT THEN 44494 % GH       \* low half of HashString("(attributes)", TABLE_OFFSET)
                ELSE IF x = "pad" THEN PadHome
                ELSE HomeSeq[CHOOSE j \in 1..GNames : AllNames[j] = x]]
+GSubOf   == [x \in GUNames |-> IF GSub /\ x = "b" /\ "a" \in OpNames THEN {"a"} ELSE {}]
 GInitSeq == [j \in 1..GInit |-> AllNames[j]] \o <<"pad">>
 GInitTok == [x \in {GInitSeq[j] : j \in 1..Len(GInitSeq)} |-> "i:" \o x]
 
@@ -62,12 +64,13 @@ GAdd    == \E n \in OpNames, rep \in BOOLEAN, enc \in Encs : \E comp \in Comps(K
               BeginAdd(n, Tok(K), rep, enc, comp) /\ hist' = Append(hist, OpRec("add", n, "", rep, comp, enc))
 GRemove == \E n \in OpNames : BeginRemove(n) /\ hist' = Append(hist, OpRec("remove", n, "", TRUE, "none", "none"))
 GRename == \E a \in OpNames, b \in OpNames : BeginRename(a, b) /\ hist' = Append(hist, OpRec("rename", a, b, TRUE, "none", "none"))
-GFlush  == (FlushClean \/ FlushInPlace \/ FlushV3Broken) /\ hist' = Append(hist, OpRec("flush", "", "", TRUE, "none", "none"))
-GCompact == CompactStale /\ hist' = Append(hist, OpRec("compact", "", "", TRUE, "none", "none"))
+GFlush  == (FlushClean \/ FlushRelocateV12 \/ FlushV3Broken) /\ hist' = Append(hist, OpRec("flush", "", "", TRUE, "none", "none"))
+GCompact == (CompactFresh \/ CompactV3) /\ hist' = Append(hist, OpRec("compact", "", "", TRUE, "none", "none"))
 \* reopen = drop the MutableArchive (flush on drop) and open the file again
 PredOf(img) == IF ~img.ok THEN [kind |-> "unopenable"]
-               ELSE [kind |-> "map", map |-> View(img.slots, img.blocks, img.dmg)]
-GClose  == (CloseClean \/ CloseInPlace \/ CloseV3Broken) /\ UNCHANGED hist /\ gpreds' = Append(gpreds, PredOf(ddisk'))
+               ELSE [kind |-> "map", map |-> View(img.slots, img.blocks, img.dmg), lf |-> img.lf,
+                     list |-> IF img.lf /\ SlotOf(img.slots, LF) # {} THEN LFContent(img.slots, img.blocks) \cap GUNames ELSE {}]
+GClose  == (CloseClean \/ CloseRelocateV12 \/ CloseV3Broken) /\ UNCHANGED hist /\ gpreds' = Append(gpreds, PredOf(ddisk'))
 GReopen == ~wopen /\ Open /\ hist' = (IF vcalls = 0 THEN hist ELSE Append(hist, OpRec("reopen", "", "", TRUE, "none", "none")))
 
 More == Len(hist) < GMaxLen /\ ~gdone /\ pc = "idle"
@@ -98,7 +101,8 @@ FinalClose == /\ ~gdone /\ pc = "idle" /\ wopen /\ gkind = "" /\ Len(hist) >= GM
 Preds == IF Hung THEN Append(gpreds, [kind |-> "hang"]) ELSE gpreds
 CaseRec == [cls |-> GCls, ver |-> GVer, lf |-> GLF, at |-> GAT, slack |-> IF GVer >= 3 THEN -1 ELSE GSlack,
             names |-> [j \in 1..GNames |-> [n |-> AllNames[j], home |-> HomeSeq[j]]], padhome |-> PadHome,
-            init |-> [j \in 1..GInit |-> AllNames[j]], ops |-> hist, devs |-> devs, preds |-> Preds,
+            init |-> [j \in 1..GInit |-> AllNames[j]], ops |-> hist,
+            sub |-> IF GSub /\ GNames >= 2 THEN <<[n |-> "b", inside |-> "a"]>> ELSE <<>>, devs |-> devs, preds |-> Preds,
             pres |-> IF Hung THEN Append(gres, "hang") ELSE gres]
 \* ... and the case is printed
 Emit == /\ ~gdone
